@@ -29,7 +29,10 @@ Clauses(r) ==
   C17_CurveUnchanged |-> r.unchanged,
   C17_ScaleInvariant |-> r.scale_ok,
   C17_RetractIndependent |-> r.retract_ok,
-  C17_Deterministic |-> r.repeat_ok
+  C17_Deterministic |-> r.repeat_ok,
+  \* features depend only on the curve's present approach data, fit and
+  \* contact point -- not on what the features object saw earlier
+  C17_InstanceHistoryFree |-> r.history_ok
   ]
 
 Report == LET c == Clauses(Recs[k])
